@@ -1,9 +1,9 @@
-"""C13 — overlap resolution returns a sub-list; placement in the JS and CLI paths.
+"""C13 — overlap resolution returns a conflict-free sub-list; placement in the JS and CLI paths.
 
 Decided: the result is a sub-multiset with unaltered elements (effects), the removal queue is
-ascending (provenance), overlap removal sits between linting and any consumption of the lints in
-harper-wasm and harper-cli (dominance).  Pairwise disjointness of the kept lints is a statement
-about the sort key and the sweep, i.e. about values: not decided.
+ascending (provenance), the sweep arithmetic (prover: sorted by start; drop => start < running end,
+keep => start >= running end and the running end becomes the kept span's end), and overlap removal
+sits between linting and any consumption of the lints in harper-wasm and harper-cli (dominance).
 """
 from .. import facts
 from ..cfg import Cfg
@@ -62,7 +62,9 @@ def run(ck, tier):
     ck.rule("R-C13-subset", "effects: remove_overlaps applies to the lint vector only length queries, a sort, read-only iteration and VecExt::remove_indices; remove_indices applies only Vec::retain with a closure that ignores its element")
     ck.rule("R-C13-sorted", "provenance: the removal queue is filled only by push_back of the counter of an ascending enumerate() over the same vector")
     ck.rule("R-C13-placement", "dominance: in harper_wasm::Linter::lint and harper-cli's lint command every consumption of the lint vector is dominated by remove_overlaps on that vector")
-    ck.not_decided += ["kept lints are pairwise disjoint", "every dropped lint starts inside a kept one (sort key and sweep arithmetic)"]
+    ck.rule("R-C13-sweep", "the sweep itself (prover, path-sensitive): the vector is sorted by a key whose leading component is span.start; a running end R starts at 0; on every path through the loop body an element is either dropped with `start < R` entailed and R unchanged, or kept with `start >= R` entailed and R := its span.end. With well-formed spans (start <= end) this gives: kept lints are pairwise disjoint, and every dropped lint starts inside the kept lint that set R")
+    ck.assumptions += ["R-C13-sweep: spans are well formed (start <= end)", "R-C13-sweep: slice::sort_by_key sorts ascending by the key (std)"]
+    ck.not_decided += ["overlap removal for ill-formed spans (start > end)"]
     p = facts.load()
     byk = fns_by_key(p)
     fs = byk.get("harper_core::remove_overlaps")
@@ -105,6 +107,7 @@ def run(ck, tier):
                     ok = False
                     detail += "; push_back at %s does not push the enumerate() counter of the lint vector" % f.loc(t["ln"])
             ck.decide("R-C13-sorted", "remove_overlaps:queue", ok, f.span, detail)
+    _sweep(ck, p, byk)
     fs = byk.get("<Vec as VecExt>::remove_indices")
     if ck.anchor("R-C13-subset", "<Vec as VecExt>::remove_indices", fs):
         f = fs[0]
@@ -199,3 +202,181 @@ def _local_used(fn, local):
         elif t["k"] == "switch" and in_place(place_of(t["discr"])):
             return True
     return False
+
+
+def _field_path(pl):
+    return [e[2] for e in pl[1:] if isinstance(e, list) and e[0] == "f"]
+
+
+def _sweep(ck, p, byk):
+    """R-C13-sweep: decide the drop/keep arithmetic of remove_overlaps with the prover"""
+    from ..prover import Ctx, Lin, analyze, entails, counter_model, V_int, UNKNOWN, havoc
+    rule = "R-C13-sweep"
+    fs = byk.get("harper_core::remove_overlaps")
+    if not fs:
+        return
+    f = fs[0]
+    pv = Prov(f)
+    cfg = Cfg(f)
+    # ---- the sort key
+    sorts = [(bi, t) for bi, t in f.calls() if method(t) in ("sort_by_key", "sort_unstable_by_key", "sort_by_cached_key") and _base_local(f, pv, t["args"][0]) == 1]
+    if len(sorts) != 1:
+        ck.refuted(rule, "remove_overlaps:sort-key", f.span, "expected exactly one sort_by_key on the lint vector, found %d (a comparator-based or missing sort is not understood)" % len(sorts))
+        return
+    sb, stt = sorts[0]
+    kc = None
+    for o in pv.trace_operand(stt["args"][1]):
+        if o[0] == "agg" and o[1] == "closure":
+            kc = p.fns.get(o[2])
+    ok_key = False
+    kdetail = "key closure not found"
+    if kc is not None:
+        ck.saw(kc)
+        # the leading component of the returned key is a plain load of (*l).span.start
+        kpv = Prov(kc)
+        rets = [sx for b in kc.blocks for sx in b["s"] if sx["k"] == "assign" and sx["lhs"] == [0]]
+        lead = None
+        if len(rets) == 1:
+            rv = rets[0]["rv"]
+            if rv["k"] == "agg" and rv.get("agg") == "tuple" and rv["ops"]:
+                lead = rv["ops"][0]
+            elif rv["k"] == "use":
+                lead = rv["op"]
+        if lead is not None:
+            defs = []
+            pl = place_of(lead)
+            if pl and len(pl) == 1:
+                defs = [x for (bi, si, kind, x) in kpv.defs.get(pl[0], []) if kind == "assign"]
+            ok_key = len(defs) == 1 and defs[0]["rv"]["k"] == "use" and place_of(defs[0]["rv"]["op"]) and place_of(defs[0]["rv"]["op"])[0] == 2 and _field_path(place_of(defs[0]["rv"]["op"])) == ["span", "start"]
+            kdetail = "leading key component is l.span.start: %s" % ok_key
+    ck.decide(rule, "remove_overlaps:sort-key", ok_key, f.loc(stt["ln"]), kdetail)
+    # ---- the loop, its element, the running end
+    nexts = [(bi, t) for bi, t in f.calls() if method(t) == "next" and cfg.dominates(sb, bi)]
+    loops = cfg.natural_loops()
+    cand = [(h, body) for h, body in loops.items() if any(bi in body for bi, _ in nexts)]
+    if len(cand) != 1 or len(nexts) != 1:
+        ck.refuted(rule, "anchor-missing:sweep-loop", f.span, "expected one loop over the sorted vector after the sort (loops: %d, next() calls: %d)" % (len(cand), len(nexts)))
+        return
+    head, body = cand[0]
+    nb, nt = nexts[0]
+    over_lints = any(o == ("arg", 1) for o in arg_roots(f, pv, nt["args"][0]))
+    # element locals: &Lint typed locals assigned from the payload of next()
+    elems = set()
+    for bi in body:
+        for sx in f.blocks[bi]["s"]:
+            if sx["k"] == "assign" and len(sx["lhs"]) == 1 and sx["rv"]["k"] == "use" and place_of(sx["rv"]["op"]):
+                src = place_of(sx["rv"]["op"])
+                if src[0] == nt["dest"][0] and "lint::Lint" in f.local_tystr(sx["lhs"][0]) and f.local_ty(sx["lhs"][0])["k"] == "ref":
+                    elems.add(sx["lhs"][0])
+    # running end: integer local assigned inside the loop (not the iterator machinery), initialised before it
+    rcand = {}
+    for bi in body:
+        for sx in f.blocks[bi]["s"]:
+            if sx["k"] == "assign" and len(sx["lhs"]) == 1 and f.local_tystr(sx["lhs"][0]) == "usize" and sx["lhs"][0] in f.debug_names():
+                rcand.setdefault(sx["lhs"][0], []).append((bi, sx))
+    rcand = {l: v for l, v in rcand.items() if any(kind == "assign" and bi not in body for (bi, si, kind, x) in pv.defs.get(l, []))}
+    if len(elems) != 1 or len(rcand) != 1 or not over_lints:
+        ck.refuted(rule, "anchor-missing:sweep-state", f.span, "expected one element reference and one running-end variable in the sweep loop over the lint vector (elements: %d, running ends: %s, iterates the vector: %s)" % (len(elems), sorted(f.debug_names().get(l) for l in rcand), over_lints))
+        return
+    E = next(iter(elems))
+    R = next(iter(rcand))
+    keeps = rcand[R]
+    inits = [x for (bi, si, kind, x) in pv.defs.get(R, []) if kind == "assign" and bi not in body]
+    init0 = len(inits) == 1 and inits[0]["rv"]["k"] == "use" and "k" in inits[0]["rv"]["op"] and str(inits[0]["rv"]["op"]["k"].get("int")) == "0"
+    rem = [(bi, t) for bi, t in f.calls() if method(t) == "remove_indices"]
+    qlocal = _base_local(f, pv, rem[0][1]["args"][1]) if rem else None
+    drops = [(bi, t) for bi, t in f.calls() if bi in body and method(t) == "push_back" and _base_local(f, pv, t["args"][0]) == qlocal]
+    ck.decide(rule, "remove_overlaps:init", init0, f.span, "the running end `%s` starts at 0: %s" % (f.debug_names().get(R), init0))
+    if not drops or not keeps:
+        ck.refuted(rule, "anchor-missing:sweep-sites", f.span, "drop sites (push_back onto the removal queue): %d, keep sites (assignments to the running end): %d" % (len(drops), len(keeps)))
+        return
+    # every iteration drops or keeps: no path from the element binding back to the head avoids both
+    bind = [bi for bi in body for sx in f.blocks[bi]["s"] if sx["k"] == "assign" and sx["lhs"] == [E]]
+    sites = {bi for bi, _ in drops} | {bi for bi, _ in keeps}
+    free = cfg.path(bind[0], {head}, avoid=sites) if bind and bind[0] not in sites else None
+    ck.decide(rule, "remove_overlaps:every-element-decided", free is None, f.span, "every path from the element binding back to the loop head passes a drop site or a keep site: %s%s" % (free is None, "" if free is None else " (path %s keeps an element without moving the running end)" % free))
+    # ---- prover run with canonical symbols for the element's span
+    cx = Ctx(p, {})
+    xs, xe = Lin.sym(cx.fresh("x.span.start")), Lin.sym(cx.fresh("x.span.end"))
+
+    def stmt_post(cx_, fn, bb, sx, st, v):
+        if fn is f and sx["rv"]["k"] == "use" and place_of(sx["rv"]["op"]):
+            pl = place_of(sx["rv"]["op"])
+            if pl[0] == E and _field_path(pl) == ["span", "start"]:
+                return V_int(xs)
+            if pl[0] == E and _field_path(pl) == ["span", "end"]:
+                return V_int(xe)
+        return None
+
+    def call(cx_, fn, bb, t, a, st, reports):
+        if fn is f and bb == nb:
+            for sym in list(xs.t) + list(xe.t):
+                havoc(st, sym)
+            st.add(xs)
+            st.add(xe.sub(xs))
+        return None
+    cx.hooks.update({"stmt_post": stmt_post, "call": call})
+    sub = analyze(cx, f, [UNKNOWN], [], want_edges=True)
+
+    def states_into(bb):
+        return [st for (a, b), lst in sub.edges.items() if b == bb for st in lst]
+
+    def judge(key, where, sts, goal_of, what):
+        if not sts:
+            ck.undecided(rule, key, where, "no abstract state reaches this site")
+            return
+        for st in sts:
+            goal = goal_of(st)
+            if goal is None:
+                ck.undecided(rule, key, where, "%s: the running end or the element's start is not tracked at this site" % what)
+                return
+            if not all(entails(st.facts, g) for g in goal):
+                cm = None
+                for g in goal:
+                    if not entails(st.facts, g):
+                        cm = counter_model(st.facts, g)
+                        break
+                syms = {sy for g in goal for sy in g.t}
+                grew = True
+                while grew:             # symbols connected to the goal through the facts
+                    grew = False
+                    for c in st.facts:
+                        cs = set(c.t)
+                        if cs & syms and not cs <= syms:
+                            syms |= cs
+                            grew = True
+                nm = lambda sy: cx.names.get(sy, "")
+                # the running end at the loop head may be any value >= 0 (the end of an earlier kept lint)
+                understood = all(nm(sy).startswith("x.span.") or (nm(sy).startswith("phi_") and nm(sy).endswith("_%d" % R)) for sy in syms)
+                if cm is not None and understood:
+                    ck.refuted(rule, key, where, "%s is not guaranteed; counter-assignment: %s" % (what, cx.show_model(cm)))
+                else:
+                    ck.undecided(rule, key, where, "%s could not be established (facts: %s)" % (what, [cx.show(c) for c in st.facts][:8]))
+                return
+        ck.proved(rule, key, where, "%s holds in all %d abstract state(s) reaching the site" % (what, len(sts)))
+
+    def r_of(st):
+        v = st.vals.get(R)
+        return v[1] if v is not None and v[0] == "int" else None
+
+    for bi, t in drops:
+        judge("remove_overlaps:drop", f.loc(t["ln"]), states_into(bi),
+              lambda st: None if r_of(st) is None else [r_of(st).sub(xs).plus(-1)],
+              "a dropped lint starts before the running end (x.start < %s)" % f.debug_names().get(R))
+        # the running end is not moved on the drop path
+        moved = [kb for kb, _ in keeps if cfg.reaches(bi, [kb], avoid=[head])]
+        ck.decide(rule, "remove_overlaps:drop-leaves-end", not moved, f.loc(t["ln"]), "no assignment to the running end between a drop and the next iteration: %s" % (not moved))
+    for bi, sx in keeps:
+        judge("remove_overlaps:keep", f.loc(sx["ln"]), states_into(bi),
+              lambda st: None if r_of(st) is None else [xs.sub(r_of(st))],
+              "a kept lint starts at or after the running end (x.start >= %s)" % f.debug_names().get(R))
+        # new value of the running end is the element's span.end
+        roots = pv.trace_operand(sx["rv"]["op"]) if sx["rv"]["k"] == "use" else set()
+        src_ok = False
+        if sx["rv"]["k"] == "use" and place_of(sx["rv"]["op"]):
+            l = place_of(sx["rv"]["op"])[0]
+            ds = [x for (b2, si, kind, x) in pv.defs.get(l, []) if kind == "assign"]
+            src_ok = len(ds) == 1 and ds[0]["rv"]["k"] == "use" and place_of(ds[0]["rv"]["op"]) and place_of(ds[0]["rv"]["op"])[0] == E and _field_path(place_of(ds[0]["rv"]["op"])) == ["span", "end"]
+            if place_of(sx["rv"]["op"])[0] == E and _field_path(place_of(sx["rv"]["op"])) == ["span", "end"]:
+                src_ok = True
+        ck.decide(rule, "remove_overlaps:keep-sets-end", src_ok, f.loc(sx["ln"]), "on the keep path the running end becomes the kept lint's span.end: %s" % src_ok)
